@@ -153,8 +153,9 @@ def _apply_common(el, x, cat):
     el.set_style(sp.StyleProperties.BackgroundColor, parse_color(x["bg"]))
   if x["ta"] != "none":
     el.set_style(sp.StyleProperties.TextAlign, sp.TextAlignType(x["ta"]))
-  el.set_begin(_time(x["b"]))
-  el.set_end(_time(x["e"]))
+  if not isinstance(el, model.Br):           # a line break has no timing of its own (it may well carry styles and steps)
+    el.set_begin(_time(x["b"]))
+    el.set_end(_time(x["e"]))
   for st in x["steps"]:
     el.add_animation_step(model.DiscreteAnimationStep(_prop(st["p"]), _time(st["b"]), _time(st["e"]), cat[st["p"]]))
 
@@ -190,7 +191,7 @@ def build(adoc):
     _apply_common(reg, r, cat)
     doc.put_region(reg)
     regions[r["id"]] = reg
-  kinds = {"body": model.Body, "div": model.Div, "p": model.P, "span": model.Span}
+  kinds = {"body": model.Body, "div": model.Div, "p": model.P, "span": model.Span, "br": model.Br}
   els = []
   for k, x in enumerate(adoc["nodes"]):
     el = kinds[x["kind"]](doc)
@@ -267,9 +268,9 @@ def project(doc):
   nodes = []
 
   def walk(el, par):
-    if isinstance(el, (model.Text, model.Br)):
+    if isinstance(el, model.Text):
       return
-    kind = {model.Body: "body", model.Div: "div", model.P: "p", model.Span: "span"}.get(type(el))
+    kind = {model.Body: "body", model.Div: "div", model.P: "p", model.Span: "span", model.Br: "br"}.get(type(el))
     if kind is None:
       raise ValueError("element kind outside the abstract domain: " + type(el).__name__)
     names, x = _project_common(el)
@@ -523,6 +524,10 @@ def random_doc(rng):
       if above and not conflict:
         pass
       for _ in range(rng.randint(1, 3)):
+        if rng.random() < 0.08:
+          # a line break - which may carry styles and animation steps of its own like any other element
+          bk = node("br", p, 0.0)
+          nodes[bk - 1]["b"] = nodes[bk - 1]["e"] = -1
         s = node("span", p, 0.3 if conflict else 0.0)
         if rng.random() < 0.25:
           s2 = node("span", s, 0.0)
